@@ -188,8 +188,34 @@ def judge_events(alt, iono, band, evs, tier):
     return out, (int(inr.sum()), int((~inr).sum()), int(fin.sum()), nz)
 
 
+def judge_large_batch(N):
+    """a batch of N events (cycled event alphabet) forward, reversed and split: each row identical"""
+    base = events("quick")
+    evs = [base[(i * 7) % len(base)] for i in range(N)]
+    tk = [((i * 0.6180339887498949) % 1.0) for i in range(N)]
+    cfg = make_cfg(525.0, 30, 300, False)
+    ef, inr, _, _ = call_radio(cfg, evs, tk)
+    out = []
+    efr, _, _, _ = call_radio(cfg, evs[::-1], tk[::-1])
+    if not np.array_equal(efr[::-1], ef, equal_nan=True):
+        bad = np.where(~np.all((efr[::-1] == ef) | (np.isnan(ef) & np.isnan(efr[::-1])), axis=1))[0]
+        out.append(("event_order_independent", f"N={N} reversed", "same rows", f"rows {bad[:5].tolist()} differ"))
+    h = N // 2 + 1
+    e1, _, _, _ = call_radio(cfg, evs[:h], tk[:h])
+    e2, _, _, _ = call_radio(cfg, evs[h:], tk[h:])
+    if not np.array_equal(np.concatenate([e1, e2]), ef, equal_nan=True):
+        cat = np.concatenate([e1, e2])
+        bad = np.where(~np.all((cat == ef) | (np.isnan(ef) & np.isnan(cat)), axis=1))[0]
+        out.append(("event_order_independent", f"N={N} split at {h}", "same rows", f"rows {bad[:5].tolist()} differ"))
+    return out
+
+
 def run(ctx):
     tier = ctx.tier
+    for N in ((16392,) if tier == "quick" else (8193, 16392, 32800, 65540)):
+        ctx.tick(3 * N, ("large_batch", N))
+        for c, what, e, o in judge_large_batch(N):
+            ctx.violation(c, {"kind": "large", "N": N}, e, o)
     step = 30 if tier == "quick" else 10
     edges = list(range(0, 1651, step))
     nb = 0
@@ -241,6 +267,8 @@ def run(ctx):
 
 def replay(case):
     k = case["kind"]
+    if k == "large":
+        return [(c, e, o) for c, what, e, o in judge_large_batch(case["N"])]
     if k == "band":
         return judge_band(case["low"], case["high"])
     if k == "event":
